@@ -553,6 +553,19 @@ func (h *handler) runStream(
 		}
 	}
 	writerFunc := func(ctx context.Context, r *goatorepo.Rpc) error {
+		if r.GetTrailer() != nil {
+			// The trailer carries the RPC's final status. The stream's own context
+			// may well be done by now (its deadline passed, and the handler returned
+			// DeadlineExceeded because of it): that must not decide, by the toss of
+			// a coin between two ready select cases, whether the peer ever learns how
+			// the RPC ended. Only the end of the connection stops the trailer.
+			select {
+			case <-h.ctx.Done():
+				return context.Cause(h.ctx)
+			case h.writeChan <- r:
+				return nil
+			}
+		}
 		select {
 		case <-ctx.Done():
 			return ctx.Err()
